@@ -34,6 +34,7 @@ Inductive stage :=
 | StSignature | StDataFmt | StClass          (* ELF probe *)
 | StHdrSize (section : bool) (entsz : N)       (* "Invalid ELF %s header entry size" *)
 | StHdrRead (section : bool) (idx : N) (off : N) (* "Cannot read ELF %s header #%u at %llu" *)
+| StHdrExtent (section : bool) (num : N) (off : N) (* "Invalid ELF %s header table (%u entries at %llu)" *)
 | StTooMany (section : bool) (n : N)
 | StAlloc
 | StNoContent
@@ -185,6 +186,11 @@ Definition pread (f : file) (len : N) (pos : Z) : res chunk :=
   else if (pos <? 0)%Z then Err KSYSTEM StNone
   else if (OFF_MAX - pos <? Z.of_N (len - 1))%Z then Err KSYSTEM StNone
   else Ok {| cfile := f; cpos := Z.to_N pos; clen := len |}.
+
+(** [check_file_extent] (util.c, fixes 78, 79, 92) for a file that is not
+    flattened: [size] bytes at [off] lie within the [flen] bytes of the file *)
+Definition extent_ok (flen : N) (off : Z) (size : N) : bool :=
+  ((0 <=? off) && (off <=? Z.of_N flen))%Z && (size <=? flen - Z.to_N off).
 
 (** ** Bounded loops
 
